@@ -308,8 +308,8 @@ def cli_part(chk: Check, seed: int, stream_cases, n_cli: int, sd: Path):
 
 # ------------------------------------------------------------------ logic part
 def logic_part(chk: Check, seed: int, n_stub: int, n_detect: int, stream_cases, sd: Path, only=None):
-    stub_cases = [c11_logic.gen_stub_case(rng_for(seed, PROP, "stub", i), i) for i in range(n_stub)]
-    stub_cases += [json.loads(p.read_text())["case"] for p in sorted(CORPUS.glob("*.json")) if json.loads(p.read_text()).get("part") == "stub"]
+    stub_cases = [json.loads(p.read_text())["case"] for p in sorted(CORPUS.glob("*.json")) if json.loads(p.read_text()).get("part") == "stub"]
+    stub_cases += [c11_logic.gen_stub_case(rng_for(seed, PROP, "stub", i), i) for i in range(n_stub)]
     det_cases = [c11_logic.gen_detect_case(rng_for(seed, PROP, "detect", i), i) for i in range(n_detect)]
     if only is not None:
         stub_cases = [only] if only.get("kind") == "stub" else []
